@@ -88,6 +88,34 @@ def search(seed=0, trials=40, tol=1e-9):
         cmp("build_laplacian[covariant_free]", ops.build_laplacian(mesh, link_exponents=A)[0], LA, {})
         cmp("build_laplacian[covariant_pinned]", ops.build_laplacian(mesh, link_exponents=A, fixed_sites=fixed)[0],
             dense_specs(mesh, A, fixed)[2], dict(fixed=fixed.tolist()))
+        if t == 0:
+            import tdgl as _t
+            from tdgl.geometry import box as _box
+            _d = _t.Device('d', layer=_t.Layer(coherence_length=1.0, london_lambda=1, thickness=0.1), film=_t.Polygon('film', points=_box(4, 2)), length_units='um')
+            _d.make_mesh(max_edge_length=0.6, smooth=0)
+            mesh0, mesh = mesh, _d.mesh
+            # Mesh.smooth returns a new mesh; the mesh it was called on (and meshes smoothed earlier) keep their geometry, so operators built
+            # from them stay exact on linear functions
+            keep = mesh.sites.copy()
+            sm1 = mesh.smooth(2)
+            sm1_sites = sm1.sites.copy()
+            sm2 = mesh.smooth(4)
+            n_cmp += 1
+            if not np.array_equal(mesh.sites, keep) or not np.array_equal(sm1.sites, sm1_sites):
+                bad.append(dict(what="Mesh.smooth modified the mesh it was called on / a mesh returned earlier", trial=t,
+                                max_site_displacement=float(max(np.abs(mesh.sites - keep).max(), np.abs(sm1.sites - sm1_sites).max()))))
+            for mm_ in (mesh, sm1, sm2):
+                Gm = ops.build_gradient(mm_)
+                lin = mm_.sites @ np.array([0.3, -1.1]) + 0.7
+                dirs = mm_.edge_mesh.directions
+                want = (dirs @ np.array([0.3, -1.1])) / mm_.edge_mesh.edge_lengths ** 1
+                n_cmp += 1
+                got = np.real(Gm @ lin)
+                if not np.allclose(got * mm_.edge_mesh.edge_lengths, dirs @ np.array([0.3, -1.1]), atol=1e-9):
+                    bad.append(dict(what="gradient is not exact on a linear function (mesh geometry stale after smoothing)", trial=t,
+                                    max_err=float(np.abs(got * mm_.edge_mesh.edge_lengths - dirs @ np.array([0.3, -1.1])).max())))
+                    break
+            mesh = mesh0
         if t < 6:
             from tdgl.solver.options import SparseSolver
             for solver in (SparseSolver.SUPERLU, SparseSolver.PARDISO, SparseSolver.UMFPACK):
